@@ -235,6 +235,10 @@ def gen_spec(rng, depth: int = 0, names: typing.Optional[list] = None) -> list:
     stateful train-only, ['L'] label transformer, ['B', spec, spec] branch, ['R', [names]] map-reduce."""
     names = names if names is not None else []
     out = []
+    if depth == 0 and SOURCE_TRANSFORMS and rng.random() < 0.3:
+        # ['X', name]: a stateful mapper in the project's SOURCE transform (rendered into source.py, ahead of the
+        # pipeline): persistent like any other, first in the order of states
+        out.extend(['X', n] for n in ['X', 'Y'][:rng.choice([1, 1, 2])])
     for _ in range(rng.randint(1, 3 if depth else 4)):
         kind = rng.choices(['S', 'M', 'T', 'L', 'B', 'R'], [6, 2, 1.5, 1, 1.5 if depth < 1 else 0, 1])[0]
         if kind in ('S', 'T') and len(names) < 6:
@@ -259,11 +263,14 @@ def gen_spec(rng, depth: int = 0, names: typing.Optional[list] = None) -> list:
     return out
 
 
+SOURCE_TRANSFORMS = True
+
+
 def spec_names(spec: list, kinds=('S', 'R')) -> list[str]:
     """Names of stateful actors that live in the apply path (need persisting), in spec order."""
     out = []
     for el in spec:
-        if el[0] == 'S' and 'S' in kinds:
+        if el[0] in ('S', 'X') and 'S' in kinds:
             out.append(el[1])
         elif el[0] == 'T' and 'T' in kinds:
             out.append(el[1])
@@ -289,7 +296,7 @@ def unanchored(spec: list, anchored: bool = False) -> list[str]:
             if not anchored:
                 out.extend([el[1]] if el[0] == 'S' else el[1])
             anchored = True
-        elif el[0] == 'M':
+        elif el[0] in ('M', 'X'):
             anchored = True
     return out
 
@@ -303,6 +310,8 @@ def mapreduce(names: list) -> str:
 def render(spec: list) -> str:
     parts = []
     for el in spec:
+        if el[0] == 'X':
+            continue  # lives in the source transform
         if el[0] == 'S':
             parts.append(f"wrap.Operator.mapper(lc.Sym, name='{el[1]}', hp=lc.current_hp('{el[1]}'))()")
         elif el[0] == 'T':
@@ -315,7 +324,7 @@ def render(spec: list) -> str:
             parts.append(mapreduce(el[1]))  # (an operator object can not be used twice: forml refuses non-linear use)
         else:
             parts.append(f'lc.Branch({render(el[1])}, {render(el[2])})')
-    return '(' + ' >> '.join(parts) + ')'
+    return '(' + ' >> '.join(parts or ['wrap.Operator.mapper(lc.passthru)()']) + ')'
 
 
 def pkgname(project: str, release: str) -> str:
@@ -327,13 +336,15 @@ def write_project(target: pathlib.Path, project: str, release: str, spec: list) 
     pkg = target / name
     pkg.mkdir(parents=True)
     (pkg / '__init__.py').write_text('')
-    (pkg / 'source.py').write_text(textwrap.dedent('''
+    transforms = ''.join(f" >> wrap.Operator.mapper(lc.Sym, name='{el[1]}', hp=lc.current_hp('{el[1]}'))()"
+                         for el in spec if el[0] == 'X')
+    (pkg / 'source.py').write_text(textwrap.dedent(f'''
         from forml import project
         from forml.pipeline import wrap
         from workloads import lifecycle as lc
 
         project.setup(project.Source.query(lc.Req.select(lc.Req.tok, lc.Req.idx), lc.Req.label)
-                      >> wrap.Operator.mapper(lc.as_tuple)())
+                      >> wrap.Operator.mapper(lc.as_tuple)(){transforms})
     '''))
     (pkg / 'pipeline.py').write_text(textwrap.dedent(f'''
         from forml import project
